@@ -31,6 +31,9 @@ def materialise(root, entries):
     (t / "tdir").mkdir(parents=True)
     (t / "tfile").write_text("target-file")
     (t / "tdir" / "inner.mmm").write_text("inner")
+    # the link targets are read-only: `clean` must not touch them in any way, permissions included
+    os.chmod(t / "tfile", 0o444)
+    os.chmod(t / "tdir" / "inner.mmm", 0o444)
     d.mkdir()
     for e in sorted(entries, key=lambda e: len(e["path"])):
         p = d.joinpath(*[dec(x) for x in e["path"]])
@@ -75,7 +78,8 @@ def snapshot(root):
     t = root / "targets"
     outside_ok = (t / "tfile").is_file() and (t / "tfile").read_text() == "target-file" and \
         (t / "tdir" / "inner.mmm").is_file() and (t / "tdir" / "inner.mmm").read_text() == "inner" and \
-        sorted(os.listdir(t)) == ["tdir", "tfile"] and os.listdir(t / "tdir") == ["inner.mmm"]
+        sorted(os.listdir(t)) == ["tdir", "tfile"] and os.listdir(t / "tdir") == ["inner.mmm"] and \
+        (os.stat(t / "tfile").st_mode & 0o777) == 0o444 and (os.stat(t / "tdir" / "inner.mmm").st_mode & 0o777) == 0o444
     return after, contents_ok, outside_ok
 
 
